@@ -95,7 +95,7 @@ def kind(s):
 def expr_pool(rng, n, max_size=14, nvars=3, with_patterns=True):
     out = []
     for _ in range(n):
-        pool = [2, 3, 4][:rng.randint(1, nvars)]
+        pool = [2, 3, 4][:rng.randint(1, nvars)] if rng.random() < 0.92 else []
         out.append(gen.rexpr(rng, rng.randint(1, max_size), pool))
     if with_patterns:
         pats = gen.rule_patterns(rng, [2, 3], per_pattern=1)
@@ -612,12 +612,15 @@ def check_routes(ctx, prop):
                 pe, de = b.impl[idx['PEXPR']], b.impl[idx['DEXPR']]
                 if pe != de and not pe.startswith('WARN') and not de.startswith('WARN'):
                     # structural difference between the forward and the reverse symbolic route
-                    same_numbers = (b.impl[idx['PEARLY']] == b.impl[idx['DEARLYAT']]) or \
-                        _close_lines(b.impl[idx['PEARLY']], b.impl[idx['DEARLYAT']])
-                    if b.status[idx['PEXPR']] == 'agree' and b.status[idx['DEXPR']] == 'agree' and same_numbers:
+                    # the two symbolic routes: when implementation and model agree on both expressions
+                    # and on both numeric answers, the theorems (synth_fwd_sound, synth_rev_sound,
+                    # normalize_sound under good_trace) say they denote the same function on the domain,
+                    # so the difference is structural only
+                    four = all(b.status[idx[r]] in ('agree', 'range') for r in ('PEXPR', 'DEXPR', 'PEARLY', 'DEARLYAT'))
+                    if four and not bad_trace:
                         rep.oracle_fail('Differential(early).component.as_expression() != Partial.as_expression() (structural only)',
                                         b, [idx['PEXPR'], idx['DEXPR']], kf='KF-ORDER')
-                    elif bad_trace and all_agree:
+                    elif four and bad_trace:
                         rep.oracle_fail('early component expression differs from Partial.as_expression()', b,
                                         [idx['PEXPR'], idx['DEXPR']], kf='KF-ROOT')
                     else:
